@@ -280,7 +280,7 @@ def end_tasks(tier, role, what=('routing', 'batching')):
         cfgs += [dict(blocks=[1], strategy='OnlyOne', mode='adaptive', bsize=2),
                  dict(blocks=[1], strategy='OnlyOne', mode='fixed', bsize=1),
                  dict(blocks=[1], strategy='OnlyOne', mode='fixed', bsize=3),
-                 dict(blocks=[2], strategy='Random', mode='adaptive', bsize=3)]
+                 dict(blocks=[2], strategy='Random', mode='adaptive', bsize=2, max_len=[2, 0])]
     for c in cfgs:
         nm = 'end_%s_%s_%s%d_%s' % ('x'.join(map(str, c['blocks'])), c['strategy'], c['mode'], c['bsize'],
                                    'fb' if c.get('feedback') is not None else '')
